@@ -6,9 +6,24 @@ unknown decorators count as caches, unknown read shapes count as flows.
 
 Cells:
   cache      a function wrapped by a decorator other than staticmethod/classmethod/property
-  global     a module-level name bound to a mutable object (list/dict/set literal or a call other
-             than logging.getLogger / re.compile / namedtuple-like constants) or declared `global`
-  classattr  a class-level attribute bound to a mutable object in the class body, or assigned (plain, augmented or
+  global     a module-level name (plain or annotated assignment, also inside a module-level if/try/with/for) bound
+             to a mutable object: a list/dict/set literal or comprehension, or a call of anything that is not in the
+             explicit allow-list IMMUTABLE_CALLS (logging.getLogger, re.compile, namedtuple/NamedTuple, TypeVar/NewType/
+             ParamSpec, the functional Enum API, frozenset/tuple/int/str/bytes/float/bool/complex/range, pure path
+             algebra); or a name declared `global`.
+             A global bound to a CONSTRUCTOR CALL is an opaque object (configparser.ConfigParser(), a cache class, a
+             Random ...): every method call on it inside a function -- `config.read(p)`, also through another module
+             (`commands.config.read(p)`, `from .commands import config`) -- is a WRITE and a READ of the cell, except the
+             methods listed per constructor in READONLY_METHODS; attribute and item stores on it are writes; every
+             other load of the name is a read.
+  classattr  a class-level attribute bound to a mutable object in the class body (`kwargs = {...}`, `seen: list = []`,
+             `cache = dict()`): the ONE object every instance shares unless the instance rebinds the name.  Writes are
+             the in-place mutations through any receiver -- `self.x[k] = v`, `self.x.update(..)`, `.append`, `.setdefault`,
+             `del self.x[k]`, `self.x += ..`, `self.x[k] += ..` --, reads every `self.x` / `cls.x` load.  NOT a cell only
+             when every class declaring it rebinds it first thing in `__init__` (an unconditional top-level
+             `self.x = ...` before any other mention of the name), no subclass has an `__init__` that fails to do so,
+             and the name is never reached through a class reference (rule `rebound_per_instance`).
+             Also: an attribute assigned (plain, augmented or
              annotated assignment, or setattr with a literal name) through a reference to the class:
              `cls.X = ...` / `ClassName.X = ...` / `<expr>.__class__.X = ...` / `type(<expr>).X = ...`.
              Cells are keyed by attribute NAME (class-insensitive: over-approximate), so afterwards every
@@ -42,11 +57,37 @@ OPS = {
     "magnet": ["commands.get_magnet", "commands.magnet"],
     "info": ["commands.info"],
     "rename": ["commands.rename"],
+    # the interactive mode: torrentfile.interactive.select_action (= commands.interactive) and the three dialogs it starts
+    "interactive-create": ["interactive.select_action", "interactive.create_torrent", "interactive.InteractiveCreator.__init__",
+                           "interactive.InteractiveCreator.get_props"],
+    "interactive-edit": ["interactive.select_action", "interactive.edit_action", "interactive.InteractiveEditor.__init__",
+                         "interactive.InteractiveEditor.show_current", "interactive.InteractiveEditor.edit_props"],
+    "interactive-recheck": ["interactive.select_action", "interactive.recheck_torrent"],
 }
+# roots that must exist: a renamed entry point must not silently drop out of the analysis
+REQUIRED_ROOTS = ["commands.create", "commands.edit", "commands.recheck", "commands.rebuild", "commands.info", "commands.rename",
+                  "interactive.select_action", "interactive.create_torrent", "interactive.edit_action",
+                  "interactive.recheck_torrent"]
 BENIGN_DECORATORS = {"staticmethod", "classmethod", "property", "abstractmethod", "wraps"}
 MUTATORS = {"append", "extend", "add", "update", "setdefault", "pop", "popitem", "clear", "insert", "remove",
             "discard", "sort", "reverse", "__setitem__", "__delitem__"}
-IMMUTABLE_CALLS = {"getLogger", "compile", "frozenset", "tuple", "namedtuple", "TypeVar", "int", "str", "bytes", "float"}
+# constructors/factories (by the last component of the called name) whose result is immutable, or whose only state is
+# declared benign (loggers: what is printed is not a result).  Everything else bound at module or class level is a cell.
+IMMUTABLE_CALLS = {
+    "getLogger",                                             # logging.getLogger
+    "compile",                                               # re.compile
+    "namedtuple", "NamedTuple",                              # collections.namedtuple / typing.NamedTuple
+    "TypeVar", "NewType", "ParamSpec",                       # typing
+    "Enum", "IntEnum", "Flag", "IntFlag", "StrEnum",         # functional Enum API
+    "frozenset", "tuple", "int", "str", "bytes", "float", "bool", "complex", "range",
+    "Path", "PurePath", "PosixPath", "PurePosixPath",        # immutable path objects
+    "join", "dirname", "basename", "abspath", "normpath", "realpath", "expanduser", "format", "encode", "decode",  # strings
+}
+# opaque module-level objects: methods that only read the object (every other method call is a write as well)
+READONLY_METHODS = {
+    "ArgumentParser": {"parse_args", "parse_known_args", "parse_intermixed_args", "format_help", "format_usage", "print_help",
+                       "print_usage", "error", "exit"},
+}
 
 
 def is_mutable_value(v):
@@ -57,6 +98,56 @@ def is_mutable_value(v):
         name = f.id if isinstance(f, ast.Name) else (f.attr if isinstance(f, ast.Attribute) else None)
         return name not in IMMUTABLE_CALLS
     return False
+
+
+def call_name(v):
+    f = v.func
+    return f.id if isinstance(f, ast.Name) else (f.attr if isinstance(f, ast.Attribute) else None)
+
+
+def bindings(stmt):
+    """(targets, value) of a plain or annotated assignment statement, else None"""
+    if isinstance(stmt, ast.Assign):
+        return stmt.targets, stmt.value
+    if isinstance(stmt, ast.AnnAssign) and stmt.value is not None:
+        return [stmt.target], stmt.value
+    return None
+
+
+def scope_statements(body):
+    """statements executed in the scope of `body` itself: descends into if/try/with/for/while, not into def/class"""
+    for st in body:
+        if isinstance(st, (ast.FunctionDef, ast.AsyncFunctionDef, ast.ClassDef)):
+            continue
+        yield st
+        for field in ("body", "orelse", "finalbody"):
+            yield from scope_statements(getattr(st, field, []) or [])
+        for h in getattr(st, "handlers", []) or []:
+            yield from scope_statements(h.body)
+
+
+def rebinds_first_thing(cnode, name):
+    """True: the class's own __init__ rebinds self.<name> by an unconditional top-level statement before any other mention of
+    the name; False: it has an __init__ that does not; None: the class has no __init__ of its own"""
+    for b in cnode.body:
+        if isinstance(b, (ast.FunctionDef, ast.AsyncFunctionDef)) and b.name == "__init__":
+            if not b.args.args:
+                return False
+            me = b.args.args[0].arg
+            for st in b.body:
+                bd = bindings(st)
+                if bd is not None:
+                    tg, val = bd
+                    hit = any(isinstance(t, ast.Attribute) and t.attr == name and isinstance(t.value, ast.Name) and t.value.id == me
+                              for t in tg)
+                    if hit:
+                        return not any(isinstance(x, ast.Attribute) and x.attr == name for x in ast.walk(val))
+                if any(isinstance(x, ast.Attribute) and x.attr == name for x in ast.walk(st)):
+                    return False
+                if isinstance(st, (ast.Return, ast.Raise)):
+                    return False
+            return False
+    return None
 
 
 def is_class_ref(g, base):
@@ -89,11 +180,50 @@ class StateAnalysis:
     def fl(self, q, c):
         self.flows.setdefault(q, set()).add(c)
 
+    def rebound_per_instance(self, name, owners):
+        """a class-body mutable attribute that NO instance ever shares: every declaring class (and every subclass with an
+        __init__ of its own) rebinds self.<name> first thing in __init__, and the name is never reached through a class"""
+        g = self.g
+        todo, seen = list(owners), set()
+        while todo:
+            cq = todo.pop()
+            if cq in seen:
+                continue
+            seen.add(cq)
+            r = rebinds_first_thing(g.classes[cq][1], name)
+            if r is False or (r is None and cq in owners):
+                return False
+            todo += g.subclasses(cq)
+        for f in g.fns.values():
+            for n in ast.walk(f.node):
+                if isinstance(n, ast.Attribute) and n.attr == name and is_class_ref(g, n.value):
+                    return False
+                if isinstance(n, ast.Call) and isinstance(n.func, ast.Name) and n.func.id in ("getattr", "setattr", "delattr", "vars") \
+                        and n.args and is_class_ref(g, n.args[0]):
+                    return False
+        return True
+
+    def object_global(self, f, root, chain, local_names):
+        """(cell, constructor, method) when root.chain(...) is a method call on a module-level object bound to a constructor call"""
+        if root is None or root in local_names or not chain:
+            return None
+        mod = f.module
+        og = self.object_globals
+        if root in og.get(mod, {}):
+            return self.module_globals[mod][root], og[mod][root], chain[0]
+        imp = self.g.mod_imports[mod].get(root)
+        if imp and imp[0] == "pkgmod" and len(chain) >= 2 and chain[0] in og.get(imp[1], {}):
+            return self.module_globals[imp[1]][chain[0]], og[imp[1]][chain[0]], chain[1]
+        if imp and imp[0] == "pkgobj" and imp[2] in og.get(imp[1], {}):
+            return self.module_globals[imp[1]][imp[2]], og[imp[1]][imp[2]], chain[0]
+        return None
+
     def scan(self):
         g = self.g
         pdir = os.path.join(g.repo, PKG)
         module_globals = {}      # module -> {name: cell}
         class_attrs = {}         # attr name -> cell  (class-level shared attributes)
+        object_globals = {}      # module -> {name: constructor}  module-level names bound to a constructor call
         # pass 1: declarations
         for fn in sorted(os.listdir(pdir)):
             if not fn.endswith(".py"):
@@ -101,21 +231,33 @@ class StateAnalysis:
             mod = fn[:-3]
             tree = ast.parse(open(os.path.join(pdir, fn), encoding="utf-8").read())
             module_globals[mod] = {}
-            for node in tree.body:
-                if isinstance(node, ast.Assign) and is_mutable_value(node.value):
-                    for t in node.targets:
-                        if isinstance(t, ast.Name) and not (t.id.startswith("__") and t.id.endswith("__")):
-                            module_globals[mod][t.id] = self.cell(f"global:{mod}.{t.id}", "global")
+            object_globals[mod] = {}
+            for node in scope_statements(tree.body):
+                bd = bindings(node)
+                if bd is None or not is_mutable_value(bd[1]):
+                    continue
+                for t in bd[0]:
+                    if isinstance(t, ast.Name) and not (t.id.startswith("__") and t.id.endswith("__")):
+                        module_globals[mod][t.id] = self.cell(f"global:{mod}.{t.id}", "global")
+                        if isinstance(bd[1], ast.Call):
+                            object_globals[mod][t.id] = call_name(bd[1]) or "?"
             for node in ast.walk(tree):
-                if isinstance(node, ast.ClassDef):
-                    for b in node.body:
-                        if isinstance(b, ast.Assign) and is_mutable_value(b.value):
-                            for t in b.targets:
-                                if isinstance(t, ast.Name):
-                                    class_attrs[t.id] = self.cell(f"classattr:{t.id}", "classattr")
                 if isinstance(node, ast.Global):
                     for n in node.names:
                         module_globals[mod][n] = self.cell(f"global:{mod}.{n}", "global")
+        # class-body attributes bound to a mutable object: shared by every instance unless rebound per instance
+        declared = {}            # attr name -> [class qual]
+        for cq, (_, cnode, _) in g.classes.items():
+            for b in scope_statements(cnode.body):
+                bd = bindings(b)
+                if bd is None or not is_mutable_value(bd[1]):
+                    continue
+                for t in bd[0]:
+                    if isinstance(t, ast.Name):
+                        declared.setdefault(t.id, []).append(cq)
+        for name, owners in declared.items():
+            if not self.rebound_per_instance(name, owners):
+                class_attrs[name] = self.cell(f"classattr:{name}", "classattr")
         for q, f in g.fns.items():
             node = f.node
             for d in getattr(node, "decorator_list", []):
@@ -170,7 +312,7 @@ class StateAnalysis:
                     if isinstance(t, ast.Subscript) and isinstance(t.value, ast.Attribute) and t.value.attr == "environ":
                         key = t.slice.value if isinstance(t.slice, ast.Constant) else "*"
                         self.w(q, self.cell(f"environ:{key}", "environ"))
-        self.module_globals, self.class_attrs = module_globals, class_attrs
+        self.module_globals, self.class_attrs, self.object_globals = module_globals, class_attrs, object_globals
         # pass 2: reads and mutations
         for q, f in g.fns.items():
             self.scan_function(q, f)
@@ -206,6 +348,14 @@ class StateAnalysis:
                         self.w(q, mg[n.id])
                 else:
                     self.fl(q, mg[n.id])
+            if isinstance(n, ast.Call) and isinstance(n.func, ast.Attribute):
+                root, chain = self.g.root_of(n.func)
+                hit = self.object_global(f, root, chain, local_names - declared_global)
+                if hit:
+                    c, ctor, meth = hit
+                    self.fl(q, c)
+                    if meth not in READONLY_METHODS.get(ctor, ()):
+                        self.w(q, c)           # config.read(p), cache.store(k, v), rng.random(): the object changes
             if isinstance(n, ast.Call) and isinstance(n.func, ast.Attribute) and n.func.attr in MUTATORS:
                 base = n.func.value
                 if isinstance(base, ast.Name) and base.id in mg and base.id not in local_names:
@@ -298,6 +448,9 @@ class StateAnalysis:
 
     def summaries(self):
         out = {}
+        missing = [r for r in REQUIRED_ROOTS if r not in self.g.fns]
+        if missing:
+            raise ValueError(f"entry points not found in the package (renamed or removed?): {missing}")
         for op, roots in OPS.items():
             roots = [r for r in roots if r in self.g.fns] + ["cli.execute"]
             full = self.g.reach(roots)
